@@ -306,3 +306,72 @@ func c06Pipelined(addr string, cid int, seed uint64, rounds int) (viol [][2]stri
 	}
 	return
 }
+
+// c06ModularUpload: a small 0x0801 (multimedia ID A) and then a sub-packaged 0x0801 (ID B) of 66 packets whose packets other
+// than the completing one hold exactly 65 536 bytes — the reassembled body's length equals the completing packet's own body
+// length modulo 2^16. Each upload is answered once with ITS multimedia ID; platform serials are consecutive.
+func c06ModularUpload(addr string, cid int, seed uint64) (viol [][2]string, incon bool, frames int) {
+	bad := func(sig, detail string) { viol = append(viol, [2]string{sig, detail}) }
+	r := core.NewRand(seed, "c06mod", uint64(cid))
+	t, err := svc.Dial(addr, cid%2 == 1, fmt.Sprintf("%d", 6800000+cid))
+	if err != nil {
+		return nil, true, 0
+	}
+	defer t.Close()
+	next := func(wantID uint16, wantBody []byte, what string) bool {
+		rx, ok, to := t.Next(30 * time.Second)
+		if to {
+			incon = true
+			return false
+		}
+		if !ok || rx.F == nil {
+			bad("reply|connection closed by the server during a valid conversation", fmt.Sprintf("modular upload conn %d at %s", cid, what))
+			return false
+		}
+		if int(rx.F.Serial) != frames {
+			bad("serial|platform serial numbers not consecutive from 0 (mod 65536)", fmt.Sprintf("conn %d: frame #%d (%s) carries serial %d", cid, frames, what, rx.F.Serial))
+			return false
+		}
+		frames++
+		if rx.F.ID != wantID || !bytes.Equal(rx.F.Body, wantBody) {
+			bad(fmt.Sprintf("reply|wrong reply body (multimedia ID)|0x0801"), fmt.Sprintf("conn %d %s: got %04x %x want %04x %x", cid, what, rx.F.ID, rx.F.Body, wantID, wantBody))
+			return false
+		}
+		return true
+	}
+	small := append([]byte{0x33, 0x33, byte(cid), 0x33}, r.Bytes(60)...)
+	t.Write(t.Frame(0x0801, 1, small))
+	if !next(0x8800, small[:4], "the small upload") {
+		return
+	}
+	var bodies [][]byte
+	for k := 0; k < 64; k++ {
+		bodies = append(bodies, r.Bytes(1023))
+	}
+	bodies = append(bodies, r.Bytes(64), r.Bytes(64))
+	bodies[0][0], bodies[0][1], bodies[0][2], bodies[0][3] = 0x44, 0x44, byte(cid), 0x44
+	order := []int{}
+	for k := 1; k <= 64; k++ {
+		order = append(order, k)
+	}
+	if cid%2 == 0 {
+		order = append(order, 65, 66)
+	} else {
+		order = append(order, 66, 65)
+	}
+	var buf []byte
+	for _, k := range order {
+		buf = append(buf, t.SubFrame(0x0801, uint16(100+k), 66, uint16(k), bodies[k-1])...)
+		if len(buf) > 20000 {
+			t.Write(buf)
+			buf = nil
+		}
+	}
+	t.Write(buf)
+	if !next(0x8800, bodies[0][:4], "the 66-packet upload of 65 536 + 64 bytes") {
+		return
+	}
+	t.Write(t.Frame(0x0002, 500, nil))
+	next(0x8001, []byte{0x01, 0xf4, 0x00, 0x02, 0x00}, "the heartbeat after it")
+	return
+}
